@@ -45,6 +45,7 @@ TRUSTED = [
     "parameter gradients: not modelled; equal functions of (parameters, inputs) have equal gradients under the autograd contract, and the gradients are compared on the real code by the search oracle",
 ]
 PARTIAL = [
+    "mask domain: boolean masks and additive masks of the layer's own floating dtype (torch happens to accept e.g. a float16 attn_mask next to a float64 key_padding_mask through type promotion; such mixed-dtype masks and the deprecated uint8 masks are compared model-vs-DP-layer only)",
     "batch_first=True as coded: head merge wrong for num_heads > 1 and L > 1, attn_mask accepted only if L = S = B (finding D7); proved for the repaired variant, counterexamples for asCoded",
 ]
 
@@ -54,6 +55,8 @@ KEY_KPM = "C14:key_padding_mask:float-rejected"
 KEY_SQUEEZE = "C14:load_state_dict:bias_kv-squeeze:embed_dim=1"
 
 NO_MASK = {"kind": "none"}
+VALID_MASKS = ("none", "b2", "f2", "b3", "f3")
+VALID_KPMS = ("none", "bool", "add")
 
 
 # ----------------------------------------------------------------------------- generators
@@ -188,6 +191,8 @@ def sig(c):
 def oracle(case):
     """The property on the real code: DP layer loaded from the torch layer's state_dict must behave
     like the torch layer.  Returns None or (key, what, replay)."""
+    if case["mask"]["kind"] not in VALID_MASKS or case["kpm"]["kind"] not in VALID_KPMS:
+        return None                       # dtype outside the property's domain (bool / the layer's float dtype)
     t = R.make_tensors(case)
     tl = R.build_torch(case, t)
     sd0 = {k: v.detach().clone() for k, v in tl.state_dict().items()}
@@ -363,7 +368,7 @@ def run_cases(ctx, cases, variant, known):
                          {"status": mf[0]}, oracle=orc)
             continue
         # leg B: specification ≡ nn.MultiheadAttention (on the inputs torch accepts)
-        if rt["status"] == "ok":
+        if rt["status"] == "ok" and c["mask"]["kind"] in VALID_MASKS and c["kpm"]["kind"] in VALID_KPMS:
             bad = None
             if ms[0] != "ok":
                 bad = ("status", "ok", ms[0])
